@@ -4,7 +4,9 @@
 
    Model: Model/Alias.v (three read routes, faithful to
    operator_traverse_path.go / operator_anchors_aliases.go / printer.go /
-   candidiate_node_json.go, including the index arithmetic of overrideEntry).
+   candidiate_node_json.go, including the index arithmetic of overrideEntry),
+   at the repaired state of /repo (explode explodes what it copies; only key
+   nodes announce a later explicit key).
    Spec: Spec/YamlMergeSpec.v.  Documents are trees whose alias nodes carry
    their anchored target; recursion is on fuel and every statement is about
    runs that did not run out of it. *)
@@ -29,9 +31,10 @@ Print Assumptions C13_explode_other_values_kept.
 (* For a map  {<<: SOURCES, k1: v1, ...}  with the merge key first, written
    `<<: *s` for one source and `<<: [*s1, *s2, ...]` otherwise, whose sources
    and explicit values are plain (no further alias / merge key inside):
-   on the domain [merge_simple] (no key twice among the sources, no empty
-   source key, explicit keys pairwise different, no explicit VALUE spelled like
-   a merged key) every key k other than << reads the same on
+   on the domain [merge_simple] (no key twice among the sources, explicit keys
+   pairwise different; since the fix "only key nodes can announce a later
+   explicit key" nothing is required of the values any more) every key k
+   other than << reads the same on
      route 1: traversal of the un-exploded map (the node found is [want]),
      routes 2/3: the exploded map (its entry for k is [want] minus anchors),
      the spec: [resolve] (its entry for k is the value of [want]),
@@ -85,29 +88,6 @@ Proof.
 Qed.
 Print Assumptions C13_explicit_before_merge_refuted.
 
-(* m: {<<: [*a, *b], z: w} : the merged key w is dropped by explode because a VALUE is spelled w *)
-Theorem C13_mergelist_value_text_refuted : exists (d : node) (p : list step),
-  route1 20 d p = ROk (W "3") /\ route2 20 d p = ROk (W "null")
-  /\ option_map (vget p) (resolve 20 d) = Some (Some (VS (W "3"))).
-Proof.
-  exists (Mp false [(W "a", Mp true [(W "x", Sv "1")]); (W "b", map_b);
-                    (W "m", Mp false [(merge_key, Sq false [Al (Mp true [(W "x", Sv "1")]); Al map_b]); (W "z", Sv "w")])]),
-         [PKey (W "m"); PKey (W "w")].
-  vm_compute. repeat split.
-Qed.
-Print Assumptions C13_mergelist_value_text_refuted.
-
-(* b: *a with a: &a {<<: *c, x: *d} : printing the result of .b keeps a literal << key *)
-Theorem C13_subresult_literal_merge_refuted : exists (d : node) (p : list step),
-  route1 20 d p = ROk (W "{""<<"":{""z"":9},""x"":5}") /\ route2 20 d p = ROk (W "{""z"":9,""x"":5}").
-Proof.
-  pose (c := Mp true [(W "z", Sv "9")]). pose (dd := Sc true (W "5")).
-  pose (a := Mp true [(merge_key, Al c); (W "x", Al dd)]).
-  exists (Mp false [(W "c", c); (W "d", dd); (W "a", a); (W "b", Al a)]), [PKey (W "b")].
-  vm_compute. split; reflexivity.
-Qed.
-Print Assumptions C13_subresult_literal_merge_refuted.
-
 (* ================================================================== *)
 (* non-vacuity                                                         *)
 (* ================================================================== *)
@@ -121,6 +101,12 @@ Example C13_example :
   /\ route2 20 d [PKey (W "e"); PKey (W "x")] = ROk (W "1")
   /\ route1 20 d [PKey (W "s"); PIdx 0; PKey (W "z")] = ROk (W "9")
   /\ option_map (vget [PKey (W "e"); PKey (W "x")]) (resolve 20 d) = Some (Some (VS (W "1")))
+  (* the inputs of the two repaired defects *)
+  /\ (let a1 := Mp true [(W "x", Sv "1")] in let b1 := Mp true [(W "x", Sv "2"); (W "w", Sv "3")] in
+      route2 20 (Mp false [(W "a", a1); (W "b", b1); (W "m", Mp false [(merge_key, Sq false [Al a1; Al b1]); (W "z", Sv "w")])])
+             [PKey (W "m"); PKey (W "w")] = ROk (W "3"))
+  /\ (let c1 := Mp true [(W "z", Sv "9")] in let a1 := Mp true [(merge_key, Al c1); (W "x", Al (Sc true (W "5")))] in
+      route1 20 (Mp false [(W "c", c1); (W "a", a1); (W "b", Al a1)]) [PKey (W "b")] = ROk (W "{""z"":9,""x"":5}"))
   /\ tlook 5 (W "z") [(merge_key, merge_value [[(W "z", Sv "9"); (W "x", Sv "5")]]); (W "x", Sv "1"); (W "y", Sv "2")] None
        = ROk (Some (Sv "9"))
   /\ explode 5 (Mp false [(merge_key, merge_value [[(W "z", Sv "9"); (W "x", Sv "5")]]); (W "x", Sv "1"); (W "y", Sv "2")])
@@ -134,7 +120,5 @@ Proof.
   unfold merge_simple. vm_compute. repeat split.
   - repeat constructor; cbn; intuition discriminate.
   - intros s [<-|[<-|[]]]; reflexivity.
-  - intuition discriminate.
   - repeat constructor; cbn; intuition discriminate.
-  - intros k H1 H2. intuition (subst; discriminate).
 Qed.
